@@ -14,9 +14,9 @@ Section W.
   Variable script : list value -> list value -> list edit.
   Hypothesis script_ok : forall xs ys, cx (script xs ys) = length xs /\ cy (script xs ys) = length ys.
 
-  Theorem walk_total : forall k r from to, (vdepth from < k)%nat -> walk script k r from to <> None.
+  Theorem walk_total : forall k nend r from to, (vdepth from < k)%nat -> walk script k nend r from to <> None.
   Proof.
-    induction k as [|k IH]; intros r from to Hk; [lia|]. cbn [walk].
+    induction k as [|k IH]; intros nend r from to Hk; [lia|]. cbn [walk].
     destruct (negb (N.eqb (vtype from) (vtype to))); [discriminate|].
     destruct (N.eqb (vtype from) T_object || N.eqb (vtype from) T_cgroup)%bool; [discriminate|].
     destruct from as [tf|pf|tf af|tf inf ef|tf enf xs|tf xs].
@@ -24,7 +24,7 @@ Section W.
     - destruct to; try discriminate. destruct (Bool.eqb _ _); discriminate.
     - destruct to; try discriminate. destruct (N.eqb _ _); discriminate.
     - destruct to as [tt|pt|tt at_|tt it et|tt ent ys|tt ys]; try discriminate.
-      simpl in Hk. specialize (IH r ef et ltac:(lia)). destruct (walk script k r ef et); [discriminate|contradiction].
+      simpl in Hk. match goal with |- context [walk script k ?ne r ef et] => specialize (IH ne r ef et ltac:(lia)); destruct (walk script k ne r ef et); [discriminate|contradiction] end.
     - destruct to as [tt|pt|tt at_|tt it et|tt ent ys|tt ys]; try (destruct enf; discriminate).
       simpl in Hk.
       assert (forall x, In x xs -> (vdepth x < k)%nat) as Hd by (intros x Hx; apply vdepth_in in Hx; lia).
@@ -37,7 +37,7 @@ Section W.
         intros Hcx Hcy Hlen.
         assert (forall es xs ys regs, (forall x, In x xs -> (vdepth x < k)%nat) ->
                   cx es = length xs -> cy es = length ys -> length regs = length xs -> go es xs ys regs <> None) as Hgo.
-        { clear - IH. intros es. induction es as [|e es IHes]; intros xs ys regs Hd Hcx Hcy Hlen; [simpl; discriminate|].
+        { clear - IH go. intros es. induction es as [|e es IHes]; intros xs ys regs Hd Hcx Hcy Hlen; [simpl; discriminate|].
           destruct e; simpl in Hcx, Hcy; simpl.
           - destruct xs as [|x xs']; [discriminate|]. destruct ys as [|y ys']; [discriminate|]. destruct regs as [|rg regs']; [discriminate|].
             simpl in *. specialize (IHes xs' ys' regs' (fun x0 H => Hd x0 (or_intror H)) ltac:(lia) ltac:(lia) ltac:(lia)).
@@ -49,8 +49,8 @@ Section W.
             simpl in *. specialize (IHes xs ys' regs Hd ltac:(lia) ltac:(lia) ltac:(lia)).
             destruct (go es xs ys' regs) as [[[? ?] ?]|]; [discriminate|contradiction].
           - destruct xs as [|x xs']; [discriminate|]. destruct ys as [|y ys']; [discriminate|]. destruct regs as [|rg regs']; [discriminate|].
-            simpl in *. pose proof (IH rg x y (Hd x (or_introl eq_refl))) as Hw.
-            destruct (walk script k rg x y) as [w|]; [|contradiction].
+            simpl in *. pose proof (IH nend rg x y (Hd x (or_introl eq_refl))) as Hw.
+            destruct (walk script k nend rg x y) as [w|]; [|contradiction].
             specialize (IHes xs' ys' regs' (fun x0 H => Hd x0 (or_intror H)) ltac:(lia) ltac:(lia) ltac:(lia)).
             destruct (go es xs' ys' regs') as [[[? ?] ?]|]; [discriminate|contradiction]. }
         specialize (Hgo es xs ys regs Hd Hcx Hcy Hlen).
@@ -59,21 +59,21 @@ Section W.
         match goal with |- context [ (fix go (xs ys : list value) {struct xs} := _) xs ys ] =>
           set (go := (fix go (xs ys : list value) {struct xs} : option (bool * list value * list region) := _)) end.
         assert (forall xs ys, (forall x, In x xs -> (vdepth x < k)%nat) -> go xs ys <> None) as Hgo.
-        { clear - IH. induction xs as [|x xs IHxs]; intros ys Hd; [simpl; discriminate|].
+        { clear - IH go. induction xs as [|x xs IHxs]; intros ys Hd; [simpl; discriminate|].
           destruct ys as [|y ys']; simpl; [discriminate|].
-          pose proof (IH r x y (Hd x (or_introl eq_refl))) as Hw. destruct (walk script k r x y) as [w|]; [|contradiction].
+          pose proof (IH nend r x y (Hd x (or_introl eq_refl))) as Hw. destruct (walk script k nend r x y) as [w|]; [|contradiction].
           specialize (IHxs ys' (fun x0 H => Hd x0 (or_intror H))). destruct (go xs ys') as [[[? ?] ?]|]; [discriminate|contradiction]. }
         specialize (Hgo xs ys Hd). destruct (go xs ys) as [[[? ?] ?]|]; [discriminate|contradiction].
     - destruct to as [tt|pt|tt at_|tt it et|tt ent ys|tt ys]; try discriminate.
       simpl in Hk.
       assert (forall x, In x xs -> (vdepth x < k)%nat) as Hd by (intros x Hx; apply vdepth_in in Hx; lia).
-      generalize (starts_of xs (fst r)) as ss. intros ss. generalize (fst (ends_of xs ss (snd r))) as es. intros es.
+      generalize (starts_of xs (fst r)) as ss. intros ss. generalize (fst (ends_of nend xs ss (snd r))) as es. intros es.
       match goal with |- context [ (fix go (xs ys : list value) (ss es : list Z) {struct xs} := _) xs ys ss es ] =>
         set (go := (fix go (xs ys : list value) (ss es : list Z) {struct xs} : option (bool * list value * list region) := _)) end.
       assert (forall xs ys ss es, (forall x, In x xs -> (vdepth x < k)%nat) -> go xs ys ss es <> None) as Hgo.
-      { clear - IH. induction xs as [|x xs IHxs]; intros ys ss es Hd; [simpl; discriminate|].
+      { clear - IH go. induction xs as [|x xs IHxs]; intros ys ss es Hd; [simpl; discriminate|].
         destruct ys as [|y ys']; simpl; [discriminate|]. destruct ss as [|s0 ss']; [discriminate|]. destruct es as [|e0 es']; [discriminate|].
-        pose proof (IH (s0, e0) x y (Hd x (or_introl eq_refl))) as Hw. destruct (walk script k (s0, e0) x y) as [w|]; [|contradiction].
+        pose proof (IH nend (s0, e0) x y (Hd x (or_introl eq_refl))) as Hw. destruct (walk script k nend (s0, e0) x y) as [w|]; [|contradiction].
         specialize (IHxs ys' ss' es' (fun x0 H => Hd x0 (or_intror H))). destruct (go xs ys' ss' es') as [[[? ?] ?]|]; [discriminate|contradiction]. }
       specialize (Hgo xs ys ss es Hd). destruct (go xs ys ss es) as [[[? ?] ?]|]; [discriminate|contradiction].
   Qed.
@@ -91,6 +91,6 @@ Qed.
 (* Snapshot.Diff returns for every pair of snapshots *)
 Theorem diff_snapshot_total from to : exists w, diff_snapshot from to = Some w.
 Proof.
-  unfold diff_snapshot. pose proof (walk_total the_script the_script_ok (S (vdepth from)) (vpos from, vend from) from to ltac:(lia)) as H.
-  destruct (walk the_script (S (vdepth from)) (vpos from, vend from) from to) as [w|]; [eauto|contradiction].
+  unfold diff_snapshot. pose proof (walk_total the_script the_script_ok (S (vdepth from)) nopos (vpos from, vend from) from to ltac:(lia)) as H.
+  destruct (walk the_script (S (vdepth from)) nopos (vpos from, vend from) from to) as [w|]; [eauto|contradiction].
 Qed.
